@@ -210,6 +210,51 @@ def scen_assembly(ch, params, out):
         out.check(body_of(ref.stdout) == body_of(text or "") + "\n", "o_text_differs_from_stdout", lambda: ctx(), "o_differs")
 
 
+def scen_patterns(ch, params, out):
+    """path patterns on a REAL temporary directory (path expansion is the OS-facing part): the literal directory part of the
+    argument may contain characters that are special in patterns, and the samples are those of every file whose name matches"""
+    import os
+    import shutil
+    import tempfile
+    from fnmatch import fnmatchcase
+    from vflib import clienv
+    dirname, pattern = ch.choose("directory,pattern", [(d, p) for d in ["plain", "export[1]", "sp ace", "a-b.c", "[x]"]
+                                                       for p in ["*.json", "?.json", "a*.json", "*/x.json"]], shard=True)
+    # (only * and ? make an argument a pattern -- process_path's documented rule; brackets are literal everywhere)
+    style = ch.choose("argument", ["-m", "-l"])
+    fw = ch.choose("framework", ["base", "pydantic"])
+    root = tempfile.mkdtemp(prefix="vf-c16-")
+    try:
+        d = os.path.join(root, dirname)
+        os.makedirs(os.path.join(d, "sub"))
+        files = {"a.json": [POOL[0]], "b.json": POOL[1:3], "ab.json": [POOL[3]], "c.txt": "not json", "sub/x.json": [POOL[2]]}
+        for name, doc in files.items():
+            with open(os.path.join(d, name), "w") as f:
+                f.write(doc if isinstance(doc, str) else json.dumps(doc))
+        if "/" in pattern:
+            matching = [n for n in files if "/" in n and fnmatchcase(n.split("/")[1], pattern.split("/")[1])]
+        else:
+            matching = [n for n in files if "/" not in n and fnmatchcase(n, pattern)]
+        expected = [o for n in matching for o in files[n]]
+        arg = os.path.join(d, pattern)
+        argv = (["-m", "Root", arg] if style == "-m" else ["-l", "Root", "-", arg]) + ["-f", fw]
+        out.info = {"dir": dirname, "pattern": pattern, "style": style}
+        ctx = lambda: f"directory {dirname!r} pattern {pattern!r} argv tail {argv[:2] + [os.path.join(dirname, pattern)]}"
+        obj = clienv.run_cli_object(argv, {})
+        if not out.check(obj.status == 0 and obj.cli is not None, "cli_fails", lambda: f"{obj.exc!r} {obj.stderr[-300:]} ({ctx()})", "cli_fails"):
+            return
+        got = list(obj.cli.models_data.get("Root", []))
+        key = lambda o: json.dumps(o, sort_keys=True)
+        out.check(sorted(map(key, got)) == sorted(map(key, expected)), "pattern_samples_wrong",
+                  lambda: f"files matching: {matching}; samples taken: {got}; expected (any file order): {expected} ({ctx()})", "pattern_samples_wrong")
+        if got:
+            lib = library_code({"Root": got}, framework=fw)
+            out.check(body_of(obj.stdout) == lib, "cli_differs_from_library", lambda: f"({ctx()})\nCLI:\n{body_of(obj.stdout)[:500]}\nLIB:\n{lib[:500]}",
+                      "cli_differs_from_library")
+    finally:
+        shutil.rmtree(root, ignore_errors=True)
+
+
 OPTION_TABLE = [
     # (argv fragment, kwargs for library_code)
     ([], {}),
@@ -218,6 +263,9 @@ OPTION_TABLE = [
     (["--merge", "exact"], {"merge": ["exact"]}),
     (["--merge", "percent_50"], {"merge": ["percent_50"]}),
     (["--merge", "percent"], {"merge": ["percent"]}),
+    # fractional percents on either side of a ratio that occurs in the samples (child / child2 share 2 of 4 names = 50 %)
+    (["--merge", "percent_50.4"], {"merge": ["percent_50.4"]}),
+    (["--merge", "percent_49.6"], {"merge": ["percent_49.6"]}),
     (["--merge", "number_2", "percent_90"], {"merge": ["number_2", "percent_90"]}),
     (["--merge", "number"], {"merge": ["number"]}),
     (["--max-strings-literals", "0"], {"max_literals": 0}),
@@ -328,10 +376,11 @@ def scen_three_roots(ch, params, out):
 
 def parts(tier):
     q = tier == "quick"
-    return [CH("lookup", "vflib.props.c16:scen_lookup", {"maxlen": 4 if q else 6}, shards=1, timeout=170 if q else 900, path_timeout=60, mode="CH-P"),
-            CH("assembly", "vflib.props.c16:scen_assembly", {}, shards=9, timeout=170 if q else 900, path_timeout=30),
-            CH("options", "vflib.props.c16:scen_options", {}, shards=13, timeout=170 if q else 900, path_timeout=30),
-            CH("three_roots_merge", "vflib.props.c16:scen_three_roots", {}, shards=6, timeout=170 if q else 600, path_timeout=30)]
+    return [CH("lookup", "vflib.props.c16:scen_lookup", {"maxlen": 4 if q else 6}, shards=1, timeout=170 if q else 300, path_timeout=60, mode="CH-P"),
+            CH("assembly", "vflib.props.c16:scen_assembly", {}, shards=9, timeout=170 if q else 300, path_timeout=30),
+            CH("options", "vflib.props.c16:scen_options", {}, shards=13, timeout=170 if q else 300, path_timeout=30),
+            CH("path_patterns_on_a_real_directory", "vflib.props.c16:scen_patterns", {}, shards=15, timeout=170 if q else 300, path_timeout=30),
+            CH("three_roots_merge", "vflib.props.c16:scen_three_roots", {}, shards=6, timeout=170 if q else 300, path_timeout=30)]
 
 
 META = {
